@@ -1037,7 +1037,11 @@ def run_C16(ctx):
             bs, w = pick_matrix(rng, "cbc-enc")
             key, iv = rb(rng, 16), rb(rng, ivlen(mode, bs))
             m = rb(rng, rng.randrange(bs, 4 * bs))
-            x = Case("cts", mode, bs, w, key, iv, ops=[f"enc {hx(m)}", "clone", "use 1", f"enc {hx(m)}"], pairs=[(0, 3)])
+            k2, v2 = rb(rng, 16), rb_nz(rng, ivlen(mode, bs))
+            c2 = rb(rng, rng.randrange(bs, 4 * bs))
+            x = Case("cts", mode, bs, w, key, iv, ops=[f"enc {hx(m)}", "clone", "use 1", f"enc {hx(m)}",
+                                                       f"enccf {hx(k2)} {hx(v2)} {hx(m)}", f"dec {hx(c2)}", f"deccf {hx(k2)} {hx(v2)} {hx(c2)}"],
+                     pairs=[(0, 3), (0, 4), (5, 6)])
             allc.append(x)
     res = ctx.run(allc, layers=())
     ctx.no_panic(allc, res)
